@@ -705,6 +705,11 @@ class Engine:
 
     def ev_Attribute(self, e, st):
         out = []
+        if self.spec.globals and isinstance(e.value, ast.Name) and e.value.id not in st.env:
+            # constant of an imported module given by the sidecar under its dotted name ('socket.AF_INET6')
+            gk = e.value.id + '.' + e.attr
+            if gk in self.spec.globals:
+                return [(st, self.spec.globals[gk])]
         for s, base in self.ev(e.value, st):
             if isinstance(base, Raised):
                 out.append((s, base))
@@ -2716,6 +2721,12 @@ class Engine:
                         origin=v.origin if getattr(v.origin, 'reload', None) else None)
         if isinstance(v, VOpaque):
             return VOpaque(z3.Const(fresh_name(label), v.z.sort()), v.sortname)
+        if isinstance(v, VMap):
+            # symbolic dict / set held in a local: a fresh one of the same type (in a new cell if it was shared)
+            nv = self.fresh(s, v.typ, label)
+            if getattr(v, 'is_set', False):
+                nv.is_set = True
+            return s.alloc(nv) if isinstance(v0, VRef) else nv
         if isinstance(v, VOpt):
             return VOpt(z3.Bool(fresh_name(label + '?none')), self.fresh_like(s, v.val, label))
         if isinstance(v, VTuple):
